@@ -12,17 +12,27 @@
 //	    early: bytes the client sends in the same write as the CONNECT head
 //	    banner: bytes the target writes as soon as it has accepted
 //	unreach <route> <lst>            CONNECT to a port nobody listens on
-//	send <nC> <nT> <chunkseed>       client writes nC and target writes nT further bytes, concurrently
-//	close <c|t> <half|full>          that end finishes sending (CloseWrite) or closes
+//	send <nC> <nT> <chunkseed>       client writes nC and target writes nT further bytes, concurrently; waits
+//	                                 until both have been received (quiescence)
+//	push <nC> <nT> <chunkseed>       the same writes, but the op returns as soon as the writes have returned:
+//	                                 the bytes are still on their way (socket buffers, the proxy) when the
+//	                                 next op - typically a close - is executed
+//	rd <c|t> <eager|slow>            how that end's application reads from now on (slow: 8 KiB, then 1 ms pause)
+//	close <c|t> <half|full|abort>    that end finishes sending (CloseWrite), closes, or closes abortively
+//	                                 (SO_LINGER 0: the proxy sees ECONNRESET instead of EOF)
+//	sendgone <c|t> <n> <chunkseed>   that end keeps writing (>= 2 writes with pauses) although the other end
+//	                                 has closed: the proxy's writes towards the closed end fail
 //	end                              does the proxy release the tunnel (Proxy.Close returns)?
 //
 // Observation after every op, at quiescence: status, the total (length:fnv64a) received by the
 // target and by the client after the response head, who has seen end-of-stream, released or not.
+// An end that has closed fully or abortively is printed as "-" (it no longer reads).
 package c04
 
 import (
 	"bufio"
 	"crypto/tls"
+	"errors"
 	"fmt"
 	"net"
 	"net/url"
@@ -81,21 +91,34 @@ func (d digest) String() string { return fmt.Sprintf("%d:%016x", d.n, d.h) }
 // end is one end of the tunnel as the harness sees it: a connection, a reader goroutine that
 // digests everything received, and the digest of everything sent.
 type end struct {
-	mu     sync.Mutex
-	conn   net.Conn
-	rd     *bufio.Reader
-	recv   digest
-	eof    bool
-	rerr   error
-	sent   digest
-	seed   int
-	closed string // "", "half", "full"
+	mu        sync.Mutex
+	conn      net.Conn
+	raw       net.Conn // the TCP connection under conn (conn itself unless the client speaks TLS)
+	rd        *bufio.Reader
+	recv      digest
+	eof       bool
+	reset     bool // the read ended with a connection reset, not with end-of-stream
+	rerr      error
+	sent      digest
+	seed      int
+	closed    string // "", "half", "full", "abort"
+	slow      bool   // the application reads 8 KiB at a time and pauses 1 ms after each read
+	wroteGone bool   // has kept writing after the other end closed (op sendgone)
 }
+
+func (e *end) gone() bool { return e.closed == "full" || e.closed == "abort" }
 
 func (e *end) start() {
 	go func() {
-		buf := make([]byte, 64<<10)
+		big := make([]byte, 64<<10)
 		for {
+			e.mu.Lock()
+			slow := e.slow
+			e.mu.Unlock()
+			buf := big
+			if slow {
+				buf = big[:8<<10]
+			}
 			n, err := e.rd.Read(buf)
 			e.mu.Lock()
 			if n > 0 {
@@ -104,10 +127,14 @@ func (e *end) start() {
 			if err != nil {
 				e.eof = true
 				e.rerr = err
+				e.reset = errors.Is(err, syscall.ECONNRESET) || errors.Is(err, syscall.EPIPE)
 				e.mu.Unlock()
 				return
 			}
 			e.mu.Unlock()
+			if slow && n > 0 {
+				time.Sleep(time.Millisecond)
+			}
 		}
 	}()
 }
@@ -116,6 +143,29 @@ func (e *end) snap() (digest, bool) {
 	e.mu.Lock()
 	defer e.mu.Unlock()
 	return e.recv, e.eof
+}
+
+func (e *end) wasReset() (bool, error) {
+	e.mu.Lock()
+	defer e.mu.Unlock()
+	return e.reset, e.rerr
+}
+
+func (e *end) setSlow(v bool) {
+	e.mu.Lock()
+	e.slow = v
+	e.mu.Unlock()
+}
+
+// abort closes the connection abortively: SO_LINGER 0, so that the kernel sends RST.
+func (e *end) abort() {
+	if tc, ok := e.raw.(*net.TCPConn); ok {
+		tc.SetLinger(0)
+	}
+	e.raw.Close()
+	if e.conn != e.raw {
+		e.conn.Close()
+	}
 }
 
 // write sends n further pattern bytes in the chunks chosen by r.
@@ -164,6 +214,28 @@ func waitUntil(d time.Duration, cond func() bool) bool {
 		}
 		if time.Now().After(deadline) {
 			return false
+		}
+		time.Sleep(300 * time.Microsecond)
+	}
+}
+
+// waitQuiet waits until cond holds; it gives up when progress() has not changed for `bound` (or after
+// hardCap): a slow reader or a loaded machine only delays the verdict as long as bytes keep moving.
+const hardCap = 90 * time.Second
+
+func waitQuiet(cond func() bool, progress func() int) bool {
+	start := time.Now()
+	last, lastAt := progress(), start
+	for {
+		if cond() {
+			return true
+		}
+		now := time.Now()
+		if p := progress(); p != last {
+			last, lastAt = p, now
+		}
+		if now.Sub(lastAt) > bound || now.Sub(start) > hardCap {
+			return cond()
 		}
 		time.Sleep(300 * time.Microsecond)
 	}
@@ -423,26 +495,33 @@ func (e *ex) obs() string {
 		}
 		return "0"
 	}
-	return fmt.Sprintf("t=%s c=%s teof=%s ceof=%s", td, cd, b(teof), b(ceof))
+	ts, cs := td.String(), cd.String()
+	if e.t != nil && e.t.gone() {
+		ts = "-"
+	}
+	if e.c != nil && e.c.gone() {
+		cs = "-"
+	}
+	return fmt.Sprintf("t=%s c=%s teof=%s ceof=%s", ts, cs, b(teof), b(ceof))
 }
 
 // dialClient connects to the proxy under test the way its listener expects.
-func dialClient(addr, lst string) (net.Conn, error) {
+func dialClient(addr, lst string) (conn, raw net.Conn, err error) {
 	c, err := net.DialTimeout("tcp", addr, 5*time.Second)
 	if err != nil {
-		return nil, err
+		return nil, nil, err
 	}
 	if lst == "tls" {
 		tc := tls.Client(c, &tls.Config{InsecureSkipVerify: true})
 		c.SetDeadline(time.Now().Add(5 * time.Second))
 		if err := tc.Handshake(); err != nil {
 			c.Close()
-			return nil, err
+			return nil, nil, err
 		}
 		c.SetDeadline(time.Time{})
-		return tc, nil
+		return tc, c, nil
 	}
-	return c, nil
+	return c, c, nil
 }
 
 // readHead reads the response head; the reader keeps whatever followed it.
@@ -471,24 +550,31 @@ func readHead(c net.Conn, br *bufio.Reader) (status int, warning bool, err error
 	}
 }
 
+// checkDir: `to` must have received exactly what `from` has sent (skipped once `to` no longer reads).
+func (e *ex) checkDir(what string, from, to *end, dir, fromName, toName string) core.Result {
+	if to.gone() {
+		return core.Result{}
+	}
+	got, _ := to.snap()
+	if got == from.sent {
+		return core.Result{}
+	}
+	sig := "c04:" + dir + "-not-delivered"
+	if got.n >= from.sent.n || got.n > 0 && got.h != prefixHash(from.seed, got.n) {
+		sig = "c04:" + dir + "-corrupt"
+	}
+	how := ""
+	if rst, err := to.wasReset(); rst {
+		how = fmt.Sprintf(" and its read ended with a connection reset (%v)", err)
+	}
+	return fail(sig, "%s: %s has sent %s but the %s has received %s%s, %v after the tunnel went quiet", what, fromName, from.sent, toName, got, how, bound)
+}
+
 func (e *ex) checkDelivery(what string) core.Result {
-	td, _ := e.t.snap()
-	cd, _ := e.c.snap()
-	if td != e.c.sent {
-		sig := "c04:c2t-not-delivered"
-		if td.n >= e.c.sent.n || td.n > 0 && td.h != prefixHash(e.c.seed, td.n) {
-			sig = "c04:c2t-corrupt"
-		}
-		return fail(sig, "%s: client has sent %s but the target has received %s %v after the tunnel went quiet", what, e.c.sent, td, bound)
+	if r := e.checkDir(what, e.c, e.t, "c2t", "client", "target"); r.Fail != "" {
+		return r
 	}
-	if cd != e.t.sent {
-		sig := "c04:t2c-not-delivered"
-		if cd.n >= e.t.sent.n || cd.n > 0 && cd.h != prefixHash(e.t.seed, cd.n) {
-			sig = "c04:t2c-corrupt"
-		}
-		return fail(sig, "%s: target has sent %s but the client has received %s %v after the tunnel went quiet", what, e.t.sent, cd, bound)
-	}
-	return core.Result{}
+	return e.checkDir(what, e.t, e.c, "t2c", "target", "client")
 }
 
 func prefixHash(seed, n int) uint64 {
@@ -501,12 +587,28 @@ func prefixHash(seed, n int) uint64 {
 	return d.h
 }
 
+// waitDelivered waits until every end that still reads has received as many bytes as were sent to
+// it (or its stream has ended), as long as bytes keep moving.
 func (e *ex) waitDelivered() {
-	waitUntil(bound, func() bool {
-		td, _ := e.t.snap()
-		cd, _ := e.c.snap()
-		return td.n >= e.c.sent.n && cd.n >= e.t.sent.n
-	})
+	waitQuiet(func() bool {
+		td, teof := e.t.snap()
+		cd, ceof := e.c.snap()
+		return (e.t.gone() || teof || td.n >= e.c.sent.n) && (e.c.gone() || ceof || cd.n >= e.t.sent.n)
+	}, e.moved)
+}
+
+// waitReceived waits until `to` has received everything `from` has sent.
+func (e *ex) waitReceived(from, to *end) {
+	waitQuiet(func() bool {
+		d, eof := to.snap()
+		return eof || d.n >= from.sent.n
+	}, e.moved)
+}
+
+func (e *ex) moved() int {
+	td, _ := e.t.snap()
+	cd, _ := e.c.snap()
+	return td.n + cd.n
 }
 
 func atoi(s string) int { n, _ := strconv.Atoi(s); return n }
@@ -538,6 +640,9 @@ func (e *ex) do(op string) core.Result {
 		}
 		core.Count("route:" + route)
 		core.Count("lst:" + lst)
+		if !unreach {
+			core.Count("kind:" + route + "/" + lst + "/" + tgt)
+		}
 		// target
 		tl, ok := e.listen()
 		if !ok {
@@ -576,12 +681,12 @@ func (e *ex) do(op string) core.Result {
 		if !ok {
 			return core.Result{Impl: "setup-failed", Fail: "listen failed", Sig: "c04:setup"}
 		}
-		cc, err := dialClient(paddr, lst)
+		cc, craw, err := dialClient(paddr, lst)
 		if err != nil {
 			return core.Result{Impl: "setup-failed", Fail: "client dial: " + err.Error(), Sig: "c04:setup"}
 		}
 		e.conns = append(e.conns, cc)
-		e.c.conn, e.c.rd = cc, bufio.NewReaderSize(cc, 64<<10)
+		e.c.conn, e.c.raw, e.c.rd = cc, craw, bufio.NewReaderSize(cc, 64<<10)
 		// CONNECT head and early data in ONE write
 		msg := []byte("CONNECT " + taddr + " HTTP/1.1\r\nHost: " + taddr + "\r\n\r\n")
 		eb := make([]byte, early)
@@ -598,7 +703,7 @@ func (e *ex) do(op string) core.Result {
 			select {
 			case tc := <-accepted:
 				e.conns = append(e.conns, tc)
-				e.t.conn, e.t.rd = tc, bufio.NewReaderSize(tc, 64<<10)
+				e.t.conn, e.t.raw, e.t.rd = tc, tc, bufio.NewReaderSize(tc, 64<<10)
 				bb := make([]byte, banner)
 				for i := range bb {
 					bb[i] = pat(seedT, i)
@@ -651,15 +756,16 @@ func (e *ex) do(op string) core.Result {
 		core.Count("outcome:tunnel")
 		return core.Result{Impl: impl}
 
-	case "send":
+	case "send", "push":
 		if !e.opened || len(f) != 4 {
 			return core.Result{Impl: "bad-op"}
 		}
 		nC, nT := atoi(f[1]), atoi(f[2])
-		if e.c.closed != "" || e.t.closed == "full" {
+		// nothing is sent by an end that has finished sending, nor (here) towards an end that is gone
+		if e.c.closed != "" || e.t.gone() {
 			nC = 0
 		}
-		if e.t.closed != "" || e.c.closed == "full" {
+		if e.t.closed != "" || e.c.gone() {
 			nT = 0
 		}
 		r := core.NewRand(uint64(atoi(f[3])))
@@ -673,57 +779,158 @@ func (e *ex) do(op string) core.Result {
 				if err != nil {
 					return core.Result{Impl: "write-failed " + e.obs(), Fail: "a write into the open tunnel failed: " + err.Error(), Sig: "c04:write-failed"}
 				}
-			case <-time.After(20 * time.Second):
-				return core.Result{Impl: "write-blocked " + e.obs(), Fail: "a write into the open tunnel blocked for 20 s (the proxy stopped reading)", Sig: "c04:write-blocked"}
+			case <-time.After(hardCap):
+				return core.Result{Impl: "write-blocked " + e.obs(), Fail: fmt.Sprintf("a write into the open tunnel blocked for %v (the proxy stopped reading)", hardCap), Sig: "c04:write-blocked"}
 			}
 		}
 		if nC > 0 && nT > 0 {
-			core.Count("send:both")
+			core.Count(f[0] + ":both")
 		} else if nC+nT > 0 {
-			core.Count("send:one")
+			core.Count(f[0] + ":one")
 		}
 		if nC+nT >= 1<<20 {
-			core.Count("send:>=1MiB")
+			core.Count(f[0] + ":>=1MiB")
+		}
+		if e.c.slow && nT >= 1<<20 || e.t.slow && nC >= 1<<20 {
+			core.Count(f[0] + ":>=1MiB-to-slow-reader")
+		}
+		if f[0] == "push" {
+			// still on its way: nothing about delivery is observed (or compared) before the next op
+			return core.Result{Impl: "pushed"}
 		}
 		e.waitDelivered()
 		res := e.checkDelivery("send")
 		res.Impl = e.obs()
 		return res
 
-	case "close":
-		if !e.opened || len(f) != 3 {
+	case "rd":
+		if !e.opened || len(f) != 3 || (f[1] != "c" && f[1] != "t") || (f[2] != "eager" && f[2] != "slow") {
 			return core.Result{Impl: "bad-op"}
 		}
-		who, other, name, oname := e.c, e.t, "client", "target"
+		who := e.c
 		if f[1] == "t" {
-			who, other, name, oname = e.t, e.c, "target", "client"
+			who = e.t
 		}
-		if who.closed == "full" || who.closed == f[2] {
+		who.setSlow(f[2] == "slow")
+		core.Count("rd:" + f[1] + ":" + f[2])
+		return core.Result{Impl: "rd"}
+
+	case "sendgone":
+		if !e.opened || len(f) != 4 || (f[1] != "c" && f[1] != "t") {
+			return core.Result{Impl: "bad-op"}
+		}
+		who, other := e.c, e.t
+		if f[1] == "t" {
+			who, other = e.t, e.c
+		}
+		n := atoi(f[2])
+		if who.closed != "" || !other.gone() || n < 8 {
+			return core.Result{Impl: "bad-op"}
+		}
+		core.Count("sendgone:" + f[1] + ":after-" + other.closed)
+		// several writes with pauses: the first write of a proxy towards a closed peer may still succeed
+		// (the kernel answers it with RST), the next one fails; two proxies on the via route
+		off := who.sent.n
+		for i := 0; i < 8; i++ {
+			b := make([]byte, n/8)
+			for j := range b {
+				b[j] = pat(who.seed, off+j)
+			}
+			who.conn.SetWriteDeadline(time.Now().Add(5 * time.Second))
+			if _, err := who.conn.Write(b); err != nil {
+				break // the proxy has closed our connection: the tunnel is gone, as it should be
+			}
+			who.sent.add(b)
+			off += len(b)
+			time.Sleep(30 * time.Millisecond)
+		}
+		who.wroteGone = true
+		return core.Result{Impl: "gone"}
+
+	case "close":
+		if !e.opened || len(f) != 3 || (f[1] != "c" && f[1] != "t") || (f[2] != "half" && f[2] != "full" && f[2] != "abort") {
+			return core.Result{Impl: "bad-op"}
+		}
+		who, other, name, oname, dir := e.c, e.t, "client", "target", "c2t"
+		if f[1] == "t" {
+			who, other, name, oname, dir = e.t, e.c, "target", "client", "t2c"
+		}
+		if who.gone() || who.closed == f[2] {
 			return core.Result{Impl: e.obs()}
 		}
 		core.Count("close:" + f[1] + ":" + f[2])
-		if f[2] == "half" {
+		first := who.closed == ""
+		inflight := 0 // bytes `who` has written that `other` has not yet received when `who` closes
+		if d, _ := other.snap(); !other.gone() && who.sent.n > d.n {
+			inflight = who.sent.n - d.n
+		}
+		switch f[2] {
+		case "half":
 			if cw, ok := who.conn.(interface{ CloseWrite() error }); ok {
 				cw.CloseWrite()
 			}
-		} else {
+		case "full":
+			// a graceful close: the application has read what was sent to it (closing with unread
+			// bytes would be an abortive close)
+			e.waitReceived(other, who)
 			who.conn.Close()
 			waitUntil(bound, func() bool { _, eof := who.snap(); return eof })
+		case "abort":
+			// what `who` has written is allowed to arrive first, so that what the other end has
+			// received is determined; what is on its way TOWARDS `who` is not waited for
+			if !other.gone() {
+				e.waitReceived(who, other)
+			}
+			inflight = 0
+			who.abort()
+			waitUntil(bound, func() bool { _, eof := who.snap(); return eof })
 		}
-		first := who.closed == ""
 		who.closed = f[2]
+		if inflight > 0 && first {
+			core.Count("close:" + f[2] + ":with-bytes-in-flight")
+			if inflight >= 1<<20 {
+				core.Count("close:" + f[2] + ":with>=1MiB-in-flight")
+			}
+			if other.closed != "" {
+				core.Count("close:final:with-bytes-in-flight")
+			}
+		}
 		if !first {
+			e.waitDelivered()
 			return core.Result{Impl: e.obs()}
 		}
-		okEOF := waitUntil(bound, func() bool { _, eof := other.snap(); return eof })
+		// the copy from `who` ends: the other end must see end-of-stream, after everything sent before
+		okEOF := other.gone() || waitQuiet(func() bool { _, eof := other.snap(); return eof }, e.moved)
+		e.waitDelivered()
 		impl := e.obs()
-		if r := e.checkDelivery("close"); r.Fail != "" && other.closed != "full" {
+		if f[2] == "abort" {
+			if !okEOF {
+				return core.Result{Impl: impl, Sig: "c04:eof-not-propagated-to-" + oname,
+					Fail: fmt.Sprintf("the %s closed abortively (connection reset) but the %s has not seen the end of the stream %v later (idle timeout %v)", name, oname, bound, idleTimeout)}
+			}
+			return core.Result{Impl: impl}
+		}
+		if r := e.checkDir("close", who, other, dir, name, oname); r.Fail != "" {
 			r.Impl = impl
 			return r
 		}
-		if !okEOF && other.closed != "full" {
+		if !who.gone() {
+			odir := "t2c"
+			if dir == "t2c" {
+				odir = "c2t"
+			}
+			if r := e.checkDir("close", other, who, odir, oname, name); r.Fail != "" {
+				r.Impl = impl
+				return r
+			}
+		}
+		if !okEOF {
 			return core.Result{Impl: impl, Sig: "c04:eof-not-propagated-to-" + oname,
 				Fail: fmt.Sprintf("the %s finished sending (%s close) but the %s has not seen end-of-stream %v later (idle timeout %v)", name, f[2], oname, bound, idleTimeout)}
+		}
+		if rst, err := other.wasReset(); rst && !other.gone() && !other.wroteGone {
+			return core.Result{Impl: impl, Sig: "c04:reset-instead-of-eof-at-" + oname,
+				Fail: fmt.Sprintf("the %s finished sending (%s close): the %s's stream ended with a connection reset (%v), not with end-of-stream", name, f[2], oname, err)}
 		}
 		return core.Result{Impl: impl}
 
@@ -731,7 +938,8 @@ func (e *ex) do(op string) core.Result {
 		if !e.opened {
 			return core.Result{Impl: "end n/a"}
 		}
-		if e.c.closed == "" || e.t.closed == "" {
+		// each copy has ended: its source closed, or it ran into a write error towards a closed end
+		if (e.c.closed == "" && !e.c.wroteGone) || (e.t.closed == "" && !e.t.wroteGone) {
 			return core.Result{Impl: "end open"}
 		}
 		done := make(chan bool, len(e.proxies))
@@ -754,6 +962,11 @@ func (e *ex) do(op string) core.Result {
 		}
 		core.Count("end:" + e.released)
 		if e.released != "released" {
+			if e.c.closed == "" || e.t.closed == "" {
+				// an end that is still open although its peer is gone: the statement does not say when
+				// the proxy gives up on it; the model does (write error ends the copy) - compared only
+				return core.Result{Impl: "end blocked"}
+			}
 			return core.Result{Impl: "end blocked", Sig: "c04:not-released",
 				Fail: fmt.Sprintf("both ends have closed, but Proxy.Close() did not return within %v: a tunnel handler still holds its connections", bound)}
 		}
